@@ -95,6 +95,18 @@ impl de::Error for SvErr {
 pub fn to_sv<T: Serialize + ?Sized>(t: &T) -> Result<SV, String> {
 	t.serialize(Ser).map_err(|e| e.0)
 }
+thread_local! {
+	static POSITIONAL: std::cell::Cell<bool> = std::cell::Cell::new(false);
+}
+/// positional flavour (what bincode / postcard style formats do): structs are written as the sequence of their field values,
+/// without names, and read back with `visit_seq` in declaration order - a Deserialize whose field order differs from what
+/// Serialize writes is invisible to every name-based format
+pub fn to_sv_positional<T: Serialize + ?Sized>(t: &T) -> Result<SV, String> {
+	POSITIONAL.with(|p| p.set(true));
+	let r = t.serialize(Ser).map_err(|e| e.0);
+	POSITIONAL.with(|p| p.set(false));
+	r
+}
 pub fn from_sv<T: de::DeserializeOwned>(v: &SV) -> Result<T, String> {
 	T::deserialize(v.clone()).map_err(|e| e.0)
 }
@@ -102,7 +114,7 @@ pub fn from_sv<T: de::DeserializeOwned>(v: &SV) -> Result<T, String> {
 // ---------------------------------------------------------------- serializer
 pub struct Ser;
 pub struct SeqSer(Vec<SV>, Option<String>);
-pub struct MapSer(Vec<(SV, SV)>, Option<SV>, Option<String>);
+pub struct MapSer(Vec<(SV, SV)>, Option<SV>, Option<String>, bool);
 
 impl ser::Serializer for Ser {
 	type Ok = SV;
@@ -190,13 +202,13 @@ impl ser::Serializer for Ser {
 		Ok(SeqSer(Vec::with_capacity(n), Some(variant.to_string())))
 	}
 	fn serialize_map(self, _: Option<usize>) -> Result<MapSer, SvErr> {
-		Ok(MapSer(Vec::new(), None, None))
+		Ok(MapSer(Vec::new(), None, None, false))
 	}
 	fn serialize_struct(self, _: &'static str, _: usize) -> Result<MapSer, SvErr> {
-		Ok(MapSer(Vec::new(), None, None))
+		Ok(MapSer(Vec::new(), None, None, true))
 	}
 	fn serialize_struct_variant(self, _: &'static str, _: u32, variant: &'static str, _: usize) -> Result<MapSer, SvErr> {
-		Ok(MapSer(Vec::new(), None, Some(variant.to_string())))
+		Ok(MapSer(Vec::new(), None, Some(variant.to_string()), true))
 	}
 }
 
@@ -210,9 +222,10 @@ impl SeqSer {
 }
 impl MapSer {
 	fn fin(self) -> SV {
+		let body = if self.3 && POSITIONAL.with(|p| p.get()) { SV::Seq(self.0.into_iter().map(|(_, v)| v).collect()) } else { SV::Map(self.0) };
 		match self.2 {
-			None => SV::Map(self.0),
-			Some(n) => SV::Var(n, Some(Box::new(SV::Map(self.0)))),
+			None => body,
+			Some(n) => SV::Var(n, Some(Box::new(body))),
 		}
 	}
 }
